@@ -427,7 +427,31 @@ def check_C02(tier, seed):
         pipeline.add_jobs(e, all_inputs(e.g, L if len(e.g.ts) <= 3 else L - 1, 500 if tier == 'quick' else 3000))
         for s in gengram.sentences(e.g, rng, 6 if tier == 'quick' else 30, max_len=40 if tier == 'quick' else 200):
             pipeline.add_jobs(e, [s], tag='s', verbose=bool(rng.getrandbits(1)))
-    res, work = prun.run(entries, 'C02', design_L=L if tier == 'quick' else 5, do_product=True,
+    # FEATURES IN COMBINATION: the features a rule or symbol can carry (contextual functor, no functor, value-less nonterminal,
+    # value-less term, precedence written after the functor, a value type whose move may throw, error rules) are drawn
+    # together per translation unit, and every input runs under drawn options (verbosity, whitespace options, buffer kind,
+    # stream kind, context category): each feature is specified on its own in Driver.tla, the combination is what runs
+    cat_ = {g.name: g for g in catalogue()}
+    cross = []
+    cnames = ['err_stmt', 'err_pop_reduce', 'expr_unary', 'nullable_prefix', 'paren_list', 'dangling_else_reduce', 'err_block', 'expr_strat']
+    for n in cnames[:5 if tier == 'quick' else 8]:
+        g = cat_[n]
+        for k in range(3 if tier == 'quick' else 8):
+            nv = [i for i, x in enumerate(g.nts) if x != g.root and rng.random() < 0.4]
+            ctx = [i for i in range(len(g.rules)) if rng.random() < 0.4]
+            dfl = [] if g.has_error() else [i for i, (l, r, _) in enumerate(g.rules) if i not in ctx and g.nts.index(l) not in nv and rng.random() < 0.3]
+            e = pipeline.gen_entry(g, gid='%s@x%d' % (n, k), ctx=ctx, dflt=dfl, noval=nv, nvterms=[i for i in range(len(g.ts)) if rng.random() < 0.3],
+                                   postprec=[i for i, (_, _, pr) in enumerate(g.rules) if pr and rng.random() < 0.5],
+                                   defines=('VH_MOVE_MAY_THROW',) if rng.random() < 0.5 else ())
+            ins = ws_inputs(g, 4 if len(g.ts) <= 3 else 3, [32, 10, ord('?')], 600 if tier == 'quick' else 3000)
+            rng.shuffle(ins)
+            for b in ins[:150 if tier == 'quick' else 1200]:
+                st = rng.choice([0, 0, 0, 1, 2])
+                pipeline.add_jobs(e, [b], buf=rng.choice([0, 1, 3]), stream=st, verbose=bool(rng.getrandbits(1)), ws=rng.choice([1, 1, 0]), nl=rng.choice([1, 1, 0]),
+                                  ctx=(rng.choice([1, 2, 3, 4, 5]) if (ctx and st == 0) else 0), tag='x')
+            cross.append(e)
+    entries += cross
+    res, work = prun.run(entries, 'C02', design_L=L if tier == 'quick' else 5, do_product=True, design_only={e.gid for e in entries if e not in cross},
                          tlc_procs=4 if tier == 'quick' else 8, tlc_workers=4 if tier == 'quick' else 2)
     if res.design_errors:
         raise Infra('the specification itself fails its oracles: ' + json.dumps(res.design_errors)[:3000])
